@@ -445,9 +445,80 @@ fn gen_p2p_fault_case(rng: &mut StdRng) -> Case {
     c
 }
 
+/// A boundary clock whose P2P port is disabled by a peer-delay fault that persists (two devices
+/// answer every Pdelay_Req) while a better master keeps announcing on it; a healthy sibling port
+/// hears the same master over a parallel link, or another master that is better than the clock
+/// itself. The healthy port must become slave: the disabled port takes no part in the election.
+fn faulty_sibling(rep: &mut Report, seed: u64) {
+    let replay = json!({"faulty_sibling_seed": seed});
+    let same_master = seed % 2 == 0;
+    let mut sim = Sim::new(seed);
+    sim.keep_log = true;
+    let start = 1_700_000_000 * SEC;
+    let mut ab = Build::new(0x50);
+    ab.n_ports = 2;
+    ab.p2p_ports = vec![true, false];
+    ab.seed = seed;
+    ab.clock = Some(perfect_clock(start));
+    let Ok(a) = ab.build() else { return };
+    let mut gb = Build::new(0x10);
+    gb.priority1 = 1;
+    gb.n_ports = 2;
+    gb.seed = seed ^ 1;
+    gb.clock = Some(perfect_clock(start));
+    let Ok(g) = gb.build() else { return };
+    // a second device on the P2P port's link that answers peer delay requests too
+    let mut rb = Build::new(0x60);
+    rb.slave_only = true;
+    rb.clock_class = 255;
+    rb.seed = seed ^ 2;
+    rb.clock = Some(perfect_clock(start));
+    let Ok(r) = rb.build() else { return };
+    let ai = sim.add_node(a.node, seed % 1_000_000_000);
+    let gi = sim.add_node(g.node, (seed >> 10) % 1_000_000_000);
+    let ri = sim.add_node(r.node, (seed >> 20) % 1_000_000_000);
+    sim.add_link(vec![(ai, 0), (gi, 0), (ri, 0)], 20_000, 5_000, 0.0);
+    if same_master {
+        sim.add_link(vec![(ai, 1), (gi, 1)], 20_000, 5_000, 0.0);
+    } else {
+        let mut mb = Build::new(0x20);
+        mb.priority1 = 50;
+        mb.seed = seed ^ 3;
+        mb.clock = Some(perfect_clock(start));
+        let Ok(m2) = mb.build() else { return };
+        let mi = sim.add_node(m2.node, (seed >> 30) % 1_000_000_000);
+        sim.add_link(vec![(ai, 1), (mi, 0)], 20_000, 5_000, 0.0);
+    }
+    for sn in sim.nodes.iter_mut() {
+        let mut c = sn.node.clock.lock().unwrap();
+        *c = SimClock::new(0, start, 0.0);
+    }
+    sim.run_until(90 * 1_000_000_000);
+    if let Some((pn, pp, call, p)) = &sim.panic {
+        if *pn == ai && call.ends_with("Timer") {
+            rep.violation(&format!("C12|panic-in-requested-timer-call|{call}|{}", p.site()), &format!("port {pp}: {}", p.describe()), replay.clone());
+        }
+        return;
+    }
+    let s0 = sim.nodes[ai].node.port_state(0);
+    let s1 = sim.nodes[ai].node.port_state(1);
+    if s0 != PortState::Faulty {
+        rep.ev("faulty_sibling_scenario_not_established");
+        return;
+    }
+    rep.ev("healthy_sibling_of_a_faulty_port_judged");
+    if s1 != PortState::Slave {
+        rep.violation(
+            &format!("C12|better-master|healthy-sibling-of-faulty-port-not-slave|{}", state_name(s1)),
+            &format!("port 1 (P2P) is disabled by a peer-delay fault; port 2 has heard a better master ({}) announce steadily for more than 60 s and is {}", if same_master { "the one port 1 hears, over a parallel link" } else { "another one" }, state_name(s1)),
+            replay,
+        );
+    }
+}
+
 pub fn run(rep: &mut Report, tier: &str, seed: u64, shard: (u32, u32), replay: Option<&str>) {
     rep.rule = "a real instance (1-2 ports, E2E/P2P, master-only / slave-only, path trace, Kalman or recording filter, the daemon's TLV forwarder) in a simulated segment with 1-3 real peer instances (better / worse / slave-only) is first driven through a random fault script (peers muted and unmuted, links cut, transmit timestamps lost with 30 % / 100 %, slave-only toggled, peer-delay double responders) and then continued with (a) total silence or (b) one steadily announcing better master; bounded-progress and cadence checks in virtual time, with the host model's armed-timer set as witness; distinct = distinct event orders; evaluations = continuations".into();
-    rep.require(&["continuation_silence", "continuation_master", "cadence_checked", "start_state_Listening", "start_state_Master", "start_state_Slave", "start_state_Passive", "start_state_Faulty", "sim_events", "peer_announcing_a_long_path_trace", "peer_on_two_ports_of_the_node"]);
+    rep.require(&["continuation_silence", "continuation_master", "cadence_checked", "start_state_Listening", "start_state_Master", "start_state_Slave", "start_state_Passive", "start_state_Faulty", "sim_events", "peer_announcing_a_long_path_trace", "peer_on_two_ports_of_the_node", "healthy_sibling_of_a_faulty_port_judged"]);
     if let Some(path) = replay {
         let v: serde_json::Value = serde_json::from_str(&std::fs::read_to_string(path).unwrap()).unwrap();
         match serde_json::from_value::<Case>(v["case"].clone()) {
@@ -472,5 +543,8 @@ pub fn run(rep: &mut Report, tier: &str, seed: u64, shard: (u32, u32), replay: O
         }
         run_case(rep, &case, false);
         rep.evaluations += 1;
+        if i % 100 == 50 {
+            faulty_sibling(rep, rng.gen());
+        }
     }
 }
